@@ -129,6 +129,9 @@ where
         } else {
             F::one() + n.ln()
         };
+        // `exp_m1` can round up to infinity where `n^(1-s)` is still finite (`n = MAX`,
+        // `s = 0`); an infinite `t` would make every proposal infinite or NaN.
+        let t = t.min(F::max_value());
         debug_assert!(t > F::zero());
         Ok(Zipf { n, s, t, q })
     }
